@@ -1483,6 +1483,9 @@ class Interp:
 
     def get_attr(self, base: T, name: str, frame: Frame, live: T,
                  node=None) -> T:
+        if base.op == "named" and base.args[1].op == "call" and \
+                base.args[1].args[0].op == "cls":
+            base = base.args[1]       # a module-level record constant
         rec = self._record_fields(base)
         if rec is not None and name in rec:
             return rec[name]
